@@ -2,7 +2,11 @@
 
 package sim
 
-import "github.com/alttpo/snes/zzsimrt"
+import (
+	"time"
+
+	"github.com/alttpo/snes/zzsimrt"
+)
 
 // Instrumented reports whether the library under test is the P-yield/P-maporder/P-globals copy.
 const Instrumented = true
@@ -39,3 +43,7 @@ func globals() []globalVar {
 // LibraryGoroutinePanics: how many goroutines started by the library have died of a panic so
 // far (in production each of them would have terminated the process).
 func LibraryGoroutinePanics() int { return int(zzsimrt.ChildPanics.Load()) }
+
+func setClock(c func() time.Time)          { zzsimrt.Clock = c }
+func setSleep(h func(d time.Duration))     { zzsimrt.SleepHook = h }
+func setExit(h func(code int, msg string)) { zzsimrt.ExitHook = h }
